@@ -8,6 +8,7 @@ From Coq Require Import String ZArith QArith Qround Qabs List Bool Lia Lqa Sorti
 From RV Require Import Base.PyNum Timing.Snapper Timing.Snap Timing.TimingMap Timing.Reseat Timing.Integrate
   Formats.SMText Formats.SM Formats.SMSpec Formats.SMReadDom Formats.SMWriteDom
   Proofs.SMProofs Proofs.SMCanon Proofs.SMReadMeta Proofs.SMReadWhole Proofs.SMWriteWholeFile.
+From RV Require SMWriteReadDom.
 Import ListNotations.
 Open Scope Q_scope.
 
@@ -68,4 +69,26 @@ Proof.
     eapply perm_trans; [exact (B (k, chart_list c' k) (chart_objs_list c' k))|exact P].
   - rewrite OF. unfold header_roundtrip in HR. repeat (apply andb_true_iff in HR; destruct HR as [HR ?]).
     destruct (s_offset s) as [o|]; [|discriminate]. apply q_close0. assumption.
+Qed.
+
+(* the written text is in the reader's domain (Proofs/SMWriteReadDom.v), so the hypothesis c02_domb txt goes away:
+   for every mapset of the exact domain whose tempo beats lie on the reader's 1/48 grid (readback_guard), reading
+   any exact rendering of the written tokens succeeds and returns the charts written *)
+Theorem written_text_in_reader_domain (s : smset) : c03_domb s = true -> SMWriteReadDom.readback_guard s = true ->
+  exists toks, sm_write live_conf current s = Some toks /\ forall txt, match_toks 0 toks txt = true -> c02_domb txt = true.
+Proof.
+  intros Hd Hg. destruct (sm_write_reader_facts_live s Hd) as (toks & W & H). exists toks. split; [exact W|].
+  intros txt Hm. exact (SMWriteReadDom.reader_facts_in_reader_domain s txt Hg (H txt Hm)).
+Qed.
+
+Theorem sm_write_read_back (Hgrid : grid48_in_table (k_tbl live_conf) = true) (s : smset) :
+  c03_domb s = true -> SMWriteReadDom.readback_guard s = true ->
+  exists toks, sm_write live_conf current s = Some toks /\
+    forall txt, match_toks 0 toks txt = true ->
+      exists s', sm_read live_conf current txt = Some s'
+                 /\ Forall2 chart_back (s_maps s') (s_maps s)
+                 /\ match s_offset s', s_offset s with Some a, Some b => a == b | _, _ => False end.
+Proof.
+  intros Hd Hg. destruct (sm_write_read_back_gen Hgrid s Hd) as (toks & W & H). destruct (written_text_in_reader_domain s Hd Hg) as (toks' & W' & H').
+  assert (toks' = toks) by congruence. subst toks'. exists toks. split; [exact W|]. intros txt Hm. exact (H txt Hm (H' txt Hm)).
 Qed.
